@@ -115,7 +115,8 @@ def tlc_phase(ctx, flags):
                  ("mc_race3", "RecvPack_mc_race3.cfg", None),
                  ("neg_precheck_race", "RecvPack_neg_precheck_race.cfg", "AtomicOK"),
                  ("neg_local_precheck_race", "RecvPack_neg_local_precheck_race.cfg", "AtomicOK"),
-                 ("asis", "RecvPack_asis.cfg", "StatusExact")]
+                 # the tree as F9 describes it: TLC -continue lists every violated clause
+                 ("asis", "RecvPack_asis.cfg", ("StatusExact", "NoDanglingRef"))]
     emits = [
         ("wire-seq", dict(inits=ctx.pick("Inits01", "Inits012"), pushin=ctx.pick("WireQuick", "WireFull"))),
         ("local-seq", dict(inits="Inits012", pushin="LocalAll")),
@@ -134,7 +135,7 @@ def tlc_phase(ctx, flags):
         name, cfg, expect = job
         big = name in ("emit_wire-seq", "mc_seq", "mc_race")
         return job, tlc.run(SPEC, cfg, workers=(4 if big else 2), timeout=ctx.pick(300, 1800),
-                            coverage=(not q and expect is None))
+                            coverage=(not q and expect is None), cont=isinstance(expect, tuple))
     out = {}
     with cf.ThreadPoolExecutor(max_workers=ctx.pick(7, 5)) as ex:
         results = list(ex.map(one, jobs))
@@ -147,7 +148,7 @@ def tlc_phase(ctx, flags):
             out[name[5:]] = behs
             continue
         ctx.add_tlc(name, res, require_ok=expect is None)
-        if expect is not None and expect not in res.violated:
+        if expect is not None and not set((expect,) if isinstance(expect, str) else expect) <= set(res.violated):
             raise MachineryError(f"negative control {name}: TLC did not find {expect} violated (violated={res.violated})\n{res.output[-1500:]}")
     ctx.log("TLC: " + ", ".join(f"{n}={r.distinct}" for (n, _, _), r in results))
     return out
@@ -366,8 +367,8 @@ def classify(tr, clause, a, b, l):
         p, i = a, b
     d = push[p - 1]
     site = L.LOCAL_SITE if d["kind"] == "local" else L.SERVER_SITE
-    if tr.get("via") == "git":
-        path = "git-tcp"
+    if tr.get("via") in ("git", "dulwich"):
+        path = tr["via"] + "-tcp"
     else:
         path = d["kind"]
     done = next((e for e in ev if e["op"] == "done" and e["p"] == p), None)
@@ -473,6 +474,9 @@ def replay_space(ctx, judge, label, behs, *, race=False, opts=None):
 # --------------------------------------------------------------------------- run
 def run(ctx):
     os.makedirs(ctx.scratch, exist_ok=True)
+    for f in os.listdir(ctx.replay_dir):        # replay files of earlier runs
+        if f.endswith(".json"):
+            os.unlink(os.path.join(ctx.replay_dir, f))
     tpl = _tpl(ctx.scratch)
     flags = probe_flags(ctx, tpl)
     ctx.cov["design_parameters"] = flags
@@ -536,7 +540,7 @@ def replay(ctx, path):
     print(json.dumps({k: v for k, v in obj.items() if k != "trace"}, indent=1))
     tpl = _tpl(ctx.scratch)
     case = {"refs0": tr0["refs0"], "store0": tr0["store0"], "push": tr0["push"], "layout": tr0.get("layout", "loose")}
-    if tr0.get("via") == "git":
+    if tr0.get("via") in ("git", "dulwich"):
         from .. import c06_git
         tr = c06_git.rerun(ctx, tpl, tr0)
     else:
